@@ -319,9 +319,12 @@ def judge(ctx, sess, tie_name, check_accept=True, strict=False):
                           dict(s.replay(), kind="uci-outcome", problems=probs, acceptor=bad, output_tail=[l for _, l in s.lines[-8:]], stderr=s.stderr[-600:]))
         elif bad:
             extra = {"finding_id": "worker-destroy-vs-poll"} if (strict and "exit-not-quiet" in bad) else {}
+            # Two families of rejections state the property itself on the recorded history (a result used for another search;
+            # at the end: searches without best move, helpers unacknowledged, search flag set): the event log then is the failing history.
+            prop_level = ("a helper result was consumed for job" in bad) or ("reject final:" in bad)
             ctx.violation(f"{s.name} with Threads {s.threads}: event log is not a run of the protocol model: {bad}",
                           dict(s.replay(), **extra, kind="correspondence", theorem_scope="Props/C10.lean, Props/C09.lean (the code left the modelled protocol)",
-                               acceptor=bad, events_tail=(s.events or [])[max(0, getattr(s, "reject_index", 0) - 25):getattr(s, "reject_index", 0) + 1]), no_input=True)
+                               acceptor=bad, events_tail=(s.events or [])[max(0, getattr(s, "reject_index", 0) - 25):getattr(s, "reject_index", 0) + 1]), no_input=not prop_level)
     ctx.tie(tie_name, kind="trace acceptor: hook event log of the real binary replayed through Conc.step", sessions=len(sess), events=nev)
     return nev
 
